@@ -395,3 +395,61 @@ c.ensure('REQUIRED_markers_and_defaults_are_taken_from_the_construction_function
     [a == _sigfn(x) for a in _first_arg_of(x, 'config.py::_get_validated_required_kwargs')] +
     [a == _sigfn(x) for a in _first_arg_of(x, 'config.py::_get_default_configurable_parameter_values')])))
 register(c)
+
+
+# ---- _find_class_construction_fn: second view, proved against the MRO -------------------------------
+world.EXTERNALS['inspect.getmro'] = 'ext::inspect.getmro'
+
+
+def mro_of(cls):
+  return ValList.unbox(sym.ufun('mro_of', sym.Val, ValList.sort())(cls))
+
+
+c = Contract('ext::inspect.getmro', ['C11'], kind='assumed')
+c.param('cls', KVal)
+c.result = ValList
+c.ensure('functional', lambda x: ValList.box(x.result) == ValList.box(mro_of(x.a.cls.e)))
+c.raises_only_listed = True
+c.assumptions.append('inspect.getmro(cls) is the method resolution order of the class: a finite '
+                     'sequence determined by the class  [external]')
+register(c)
+
+
+def _own(base, name):
+  """`name in base.__dict__` -- the class defines the attribute itself (opaque membership)."""
+  d = sym.ufun('attr___dict__', sym.Val, sym.Val)(base)
+  return sym.ufun('val_contains', sym.Val, sym.Val, sym.BoolS)(d, sym.val_of_str(sym.str_lit(name)))
+
+
+c = Contract('config.py::_find_class_construction_fn#mro', ['C11', 'C10'])
+c.target = 'config.py::_find_class_construction_fn'
+c.param('cls', KVal)
+c.result = KVal
+c.val_ops_may_raise = False
+
+
+def _first_ctor(x):
+  m = mro_of(x.a.cls.e)
+  rv = x.result.e if hasattr(x.result, 'e') else sym.VAL_NONE     # falling off the end: None
+  none_before = lambda k: sym.forall([j_], z3.Implies(
+      z3.And(0 <= j_, j_ < k), z3.And(z3.Not(_own(m.arr[j_], '__init__')),
+                                      z3.Not(_own(m.arr[j_], '__new__')))))
+  init = sym.ufun('attr___init__', sym.Val, sym.Val)
+  new = sym.ufun('attr___new__', sym.Val, sym.Val)
+  found = z3.Exists([i_], z3.And(
+      0 <= i_, i_ < m.len, none_before(i_),
+      z3.Or(z3.And(_own(m.arr[i_], '__init__'), rv == init(m.arr[i_])),
+            z3.And(z3.Not(_own(m.arr[i_], '__init__')), _own(m.arr[i_], '__new__'),
+                   rv == new(m.arr[i_])))))
+  return z3.Or(found, z3.And(none_before(m.len), rv == sym.VAL_NONE))
+
+
+c.ensure('the_first_class_of_the_MRO_that_defines_a_constructor_decides_and___init___wins',
+         _first_ctor)
+c.loop(('inspect.getmro(cls)', None), [Clause(
+    'no_earlier_class_defines_a_constructor', lambda x, k: sym.forall([j_], z3.Implies(
+        z3.And(0 <= j_, j_ < k),
+        z3.And(z3.Not(_own(mro_of(x.a.cls.e).arr[j_], '__init__')),
+               z3.Not(_own(mro_of(x.a.cls.e).arr[j_], '__new__'))))))])
+c.raises_only_listed = True
+register(c)
